@@ -222,6 +222,9 @@ def _run(eng, world, contracts, qual, res, timeout_ms, concretise, keep_smt, onl
             out = ('ret', NONE)
         if out[0] not in ('ret', 'exc'):
             raise Unsupported('break/continue outside loop')
+        if _PROGRESS:
+            print('  path %d: %s %s' % (npaths, out[0], (out[1].cname + ' from ' + str(getattr(out[1], 'origin', '?')))
+                                        if out[0] == 'exc' else ''), flush=True)
         if out[0] == 'ret':
             val = out[1]
             if '$yield' in s.loc:
